@@ -30,7 +30,7 @@ claim("C06", "proof",
       "Trusted: rustc MIR, mirfacts, zxwalk, finite-domain term equivalence. The 48K machine ignoring paging writes is decided by C07 (machine guard in write_io) plus the constructor's paging_enabled = false.",
       "DESIGN.md §3 C06")
 claim("C07", "proof",
-      "path-sensitive abstract interpretation of read_io/write_io with device leaves as effects; the extracted decision list is tabulated over all 65536 addresses x 12 configurations x 2 machines and compared with the statement's decode cubes (three-valued oracle)",
+      "path-sensitive abstract interpretation of read_io/write_io with device leaves as effects; the extracted decision list is tabulated over all 65536 addresses x 12 configurations x 2 machines and compared with the statement's decode cubes (three-valued oracle); the floating-bus function extracted as a piecewise closed form of the frame clock and tabulated for every T against the ULA fetch pattern, with the source RAM page checked against the displayed screen bank",
       "Every address that selects exactly one device reaches that device and no other (reads and writes, both machines, mouse/joystick/extender on or off); extender discipline; ULA read row AND / EAR bit and ULA write bit fields.",
       "Addresses where the statement does not single out one device (several cubes overlap, or the mouse outside xxDF-style addresses) are not compared. The floating-bus byte value is not decided.",
       "DESIGN.md §3 C07, Appendix A.2")
